@@ -172,6 +172,7 @@ def gen_case(seed, tier='quick', index=1):
                     'frac': round(rng.uniform(0.02, 1.2), 3)}
     knobs = {'copies': ncopies, 'first_ev': [evs[c][0] for c in range(ncopies)],
              'fail_on': rng.choice([1, 2, 4]) if faulty else None,
+             'fail_exc': rng.choice(['oserr', 'keyerr', 'valerr', 'notimpl']),
              'max_empty': rng.choice([100, 100, 1, 3]),
              'decoy': rng.random() < 0.25,
              'reenter': reenter,
@@ -301,7 +302,8 @@ def run_sched(case, fs):
         if how != 'compiled':
             bump(f'probe:model_{how}')
         models = [make_model() for _ in range(ncopies)]
-        uf = UserFuncs(knobs.get('fail_on'))
+        uf = UserFuncs(knobs.get('fail_on'),
+                           knobs.get('fail_exc', 'oserr'))
         first = knobs.get('first_ev') or ['default'] * ncopies
         evs = {c: [(first[c % len(first)],
                     make_evaluator(models[c], first[c % len(first)], uf))]
